@@ -19,6 +19,20 @@ func vFrags(n int, symHeight bool) []text.TextFragment {
 	return out
 }
 
+// vSameFrags: the detector's input slice still holds the same fragments in the same order (detectors analyse, they do
+// not rewrite the caller's data: later stages and the caller use the same slice again).
+func vSameFrags(a, b []text.TextFragment) bool {
+	if len(a) != len(b) {
+		return false
+	}
+	for i := range a {
+		if a[i].Text != b[i].Text || a[i].X != b[i].X || a[i].Y != b[i].Y || a[i].Width != b[i].Width {
+			return false
+		}
+	}
+	return true
+}
+
 func vCountLabel(frags []text.TextFragment, label string) int {
 	n := 0
 	for _, f := range frags {
@@ -49,12 +63,14 @@ func vHavocGaps(d *ColumnDetector, fragments []text.TextFragment, pageWidth, pag
 //
 //symgo:harness prop=C09 kernel=K1a-columns real=1 noreplay=1
 //symgo:redirect (*github.com/tsawler/tabula/layout.ColumnDetector).findVerticalGaps vHavocGaps
-//symgo:desc 1..2 quick / 1..3 thorough fragments with fully symbolic real X, Y, Width >= 0, Height > 0 inside a 612x792 page and distinct labels; findVerticalGaps havoc'd (0..2 arbitrary ordered gaps inside the page): each label occurs exactly once in Columns[i].Fragments + SpanningFragments and exactly once in GetFragmentsInReadingOrder; floats modelled as reals
+//symgo:desc 1..2 quick / 1..3 thorough fragments with fully symbolic real X, Y, Width >= 0, Height > 0 inside a 612x792 page and distinct labels; findVerticalGaps havoc'd (0..2 arbitrary ordered gaps inside the page): each label occurs exactly once in Columns[i].Fragments + SpanningFragments and exactly once in GetFragmentsInReadingOrder, and the caller's input slice is left as it was; floats modelled as reals
 func H_C09_columns_conserve() {
 	n := vAnyIntIn(1, 2+vTier())
 	frags := vFrags(n, true)
+	before := append([]text.TextFragment{}, frags...)
 	layout := NewColumnDetector().Detect(frags, 612, 792)
 	vAssert("layout", layout != nil)
+	vAssert("input-fragments-not-rewritten", vSameFrags(before, frags))
 	var all []text.TextFragment
 	for _, c := range layout.Columns {
 		all = append(all, c.Fragments...)
